@@ -593,7 +593,12 @@ fn try_spawn_input_processing<'scope>(
         scope.spawn(|scope| {
             #[cfg(feature = "verif_hooks")]
             crate::verif_hooks::perturb(10);
-            if let Some(input_section) = resources.unprocessed.pop()
+            #[cfg(feature = "verif_hooks")]
+            let verif_held = crate::verif_hooks::evlog::hold();
+            let popped = resources.unprocessed.pop();
+            #[cfg(feature = "verif_hooks")]
+            verif_held.push_and_release(22, popped.as_ref().map_or(0, |g| g.index as u64 + 1), 0);
+            if let Some(input_section) = popped
                 && let Err(error) =
                     process_input_section_group(resources, input_section, scope, &mut reservation)
             {
@@ -864,8 +869,6 @@ fn process_input_section_group<'data, 'offsets, 'scope>(
     reservation: &mut PoolReservation,
 ) -> Result {
     verbose_timing_phase!("Split and hash");
-    #[cfg(feature = "verif_hooks")]
-    crate::verif_hooks::evlog::ev(22, group_in.index as u64 + 1, 0);
 
     let mut buckets: [Vec<StringToMerge<'data, 'offsets>>; MERGE_STRING_BUCKETS] = [();
         MERGE_STRING_BUCKETS]
